@@ -40,7 +40,8 @@ RULE = ("helpers: one evaluation = one call of the real function judged by the T
         "chain projection (after a block that changed it) of a run of deploy.Deploy by all members, distinct_nontrivial counts "
         "distinct (committee size, abstract projection) pairs")
 
-# exhaustive design-level configurations: (module, cfg, expect) - expect "ok" or "cex" (prediction with the code's arithmetic)
+# exhaustive design-level configurations: (module, cfg, expect) - expect "ok" or "cex" (a deviation switch is on - behaviour the
+# code had, or a regression it could acquire: TLC must produce the counterexample, i.e. the property is sensitive to it)
 MC = {
     "quick": [
         ("DeployMC.tla", "Deploy_n1.cfg", "ok"),
@@ -48,6 +49,10 @@ MC = {
         ("DeployMC.tla", "Deploy_n3maj.cfg", "ok"),
         ("DeployMC.tla", "Deploy_n2_code.cfg", "cex"),
         ("DeployMC.tla", "Deploy_n3maj_code.cfg", "cex"),
+        ("DeployMC.tla", "Deploy_n1loss.cfg", "ok"),               # lossy delivery, Converges under finitely many losses
+        ("DeployMC.tla", "Deploy_n2loss.cfg", "ok"),
+        ("DeployMC.tla", "Deploy_n1loss_sticky.cfg", "cex"),       # a monitor that stays pending after an expiry hangs
+        ("DeployMC.tla", "Deploy_n2loss_sticky.cfg", "cex"),
     ],
     "thorough": [
         ("DeployMC.tla", "Deploy_n1.cfg", "ok"),
@@ -56,6 +61,10 @@ MC = {
         ("DeployMC.tla", "Deploy_n3maj.cfg", "ok"),
         ("DeployMC.tla", "Deploy_n2_code.cfg", "cex"),
         ("DeployMC.tla", "Deploy_n3maj_code.cfg", "cex"),
+        ("DeployMC.tla", "Deploy_n1loss.cfg", "ok"),
+        ("DeployMC.tla", "Deploy_n2loss.cfg", "ok"),
+        ("DeployMC.tla", "Deploy_n1loss_sticky.cfg", "cex"),
+        ("DeployMC.tla", "Deploy_n2loss_sticky.cfg", "cex"),
     ],
 }
 # random simulation of the whole procedure for committee sizes whose state space is too large for exhaustive search
@@ -138,7 +147,7 @@ def s1_design(tier, seed):
 # ----------------------------------------------------------------------------- schedules
 
 def plan(**kw):
-    d = dict(start=0, afterNotary=False, afterBoot=0, pauses=[], cancels=[])
+    d = dict(start=0, afterNotary=False, afterBoot=0, pauses=[], cancels=[], losses=[])
     d.update(kw)
     return d
 
@@ -172,6 +181,29 @@ def scenarios(tier, seed):
     def absent(n, who):
         return [plan(afterNotary=(i in who)) for i in range(n)]
 
+    # lossy delivery: the k-th submission of a class by one member is acknowledged by the wrapper but never reaches the node.
+    # `critical` lists the submissions nobody else makes up for (leader-only actions, a member's own Alphabet contract, the
+    # notary deposit every co-signer needs): if the stage does not send again after the expiry, the run hangs.
+    def critical(n):
+        out = [(0, "tx:deploy", k) for k in range(1, 8)] + [(0, "tx:transfer", 1), (0, "nr:deploy", 1), (0, "nr:deploy", 2)]
+        if n == 1:
+            out += [(0, "tx:register", k) for k in range(1, 9)] + [(0, "tx:designate", 1), (0, "nr:designate", 1), (0, "nr:candidate", 1)]
+        else:
+            out += [(0, "tx:register", 1), (0, "tx:register", 2), (0, "nr:transfer", 1)]
+            out += [(j, "tx:deploy", 1) for j in range(1, n)]
+            if n == 3:      # validators' multi-signature is 3 of 3: every member's deposit is needed
+                out += [(j, "tx:transfer", 1) for j in range(1, n)]
+        return out
+
+    def lossy(n, losses):
+        ms = [plan() for _ in range(n)]
+        for (i, cls, k) in losses:
+            ms[i]["losses"].append(dict(cls=cls, k=k))
+        return ms
+
+    def add_lossy(n, losses):
+        add(n, "lossy:" + ",".join("m%d:%s#%d" % l for l in losses), lossy(n, losses), budget=2400 + 300 * n)
+
     # trap for the witness-order defect: the signatures arrive in descending index order (member 2 at once, member 1 fifteen
     # blocks after the shared data appeared, member 3 absent), so the leader's map holds them in that insertion order and only
     # a lucky rotation of the map iteration (1/8) sorts them
@@ -187,6 +219,8 @@ def scenarios(tier, seed):
         add(3, "absent:1", absent(3, {1}))
         for n in (4, 5, 6, 7):       # witness assembly from >= 2 remote signatures (Notary bootstrap only)
             add(n, "notary-only", goal="notary")
+        for n in (1, 3):             # one loss each, placed by the seed over the critical submissions
+            add_lossy(n, [rnd.choice(critical(n))])
     else:
         for n in range(1, 8):
             add(n, "plain")
@@ -205,6 +239,23 @@ def scenarios(tier, seed):
         for n in (4, 5, 6, 7):
             for _ in range(3):
                 add(n, "notary-only", goal="notary")
+        # lossy delivery: classes x members (first submission of every class by every member, later ones by seed), n = 1..4
+        classes = ["tx:deploy", "tx:register", "tx:transfer", "tx:designate", "nr:transfer", "nr:designate", "nr:deploy", "nr:candidate"]
+        for n in (1, 2, 3, 4):
+            for i in range(n):
+                for cls in classes:
+                    if cls == "tx:designate" and (i > 0 or n == 4):
+                        continue                       # only the leader designates by plain transaction; n=4 sampled below
+                    if n == 4 and i in (1, 2) and cls not in ("tx:deploy", "nr:transfer", "tx:transfer"):
+                        continue
+                    add_lossy(n, [(i, cls, 1)])
+            for _ in range(4):                          # a later submission of a critical class
+                add_lossy(n, [rnd.choice(critical(n))])
+            for _ in range(2):                          # two losses in one run
+                add_lossy(n, rnd.sample(critical(n), 2))
+        for n in (5, 7):
+            add_lossy(n, [(0, "nr:transfer", 1)])
+            add_lossy(n, [(n - 1, "tx:deploy", 1)])
     return scs
 
 
